@@ -21,7 +21,8 @@ ASSUMPTIONS = [
 ]
 REQUIRED_LABELS = {t: ["advance", "ancestor", "asked-brothers>=2", "multi-chunk-header",
                        "stop-early", "stop-early-partial", "history", "same-hash-other-coinbase", "final:partial", "final:total", "fields:17", "fields:18",
-                       "fields:19", "fields:20", "code:0", "code:1"]
+                       "fields:19", "fields:20", "code:0", "code:1", "mm-len:55", "mm-len:56", "mm-len:255",
+                       "mm-len:256"]
                    for t in ("quick", "thorough")}
 
 
@@ -36,6 +37,15 @@ def block(draw, kinds, big_cb):
     nf = draw(st.sampled_from(kinds))
     nbase = 16 if nf in (17, 19) else 17
     fields = [draw(field()) for _ in range(nbase)]
+    if draw(st.integers(0, 5)) == 0:
+        # the part before the merge-mining fields encodes to a payload of exactly T bytes: the
+        # edges of the RLP list prefix forms (short / one / two length bytes) and of the
+        # two-byte length in the metadata
+        T = draw(st.sampled_from([55, 55, 56, 56, 255, 256, 65535]))
+        e = T - (nbase - 1)
+        ln = e - 1 if e <= 56 else (e - 2 if e - 2 <= 255 else e - 3)
+        fields = [b""] * nbase
+        fields[draw(st.integers(0, nbase - 1))] = bytes([0x80 | draw(st.integers(0, 127))]) * ln
     fields.append(draw(st.binary(min_size=80, max_size=80)))
     b = {"fields": fields, "full_cb": None}
     if nf >= 19:
@@ -232,6 +242,8 @@ def run_one(c, w, p):
         if len(it["chunks"]) >= 2:
             multi_chunk = True
         labels.append("fields:%d" % len(b["fields"]))
+        if mm_len(b) in (55, 56, 255, 256, 65535):
+            labels.append("mm-len:%d" % mm_len(b))
         if adv and c["ask"][i]:
             exp = sorted(c["bros"][i], key=bhash)
             if it["nbro"] != len(exp):
